@@ -1,7 +1,7 @@
 //! One entry per property: which families it runs, which clauses count, what the evidence says.
 use crate::common::*;
 use crate::orch::*;
-use crate::{fam_lit, fam_path, fam_sync, lit, rc11, sync};
+use crate::{fam_lit, fam_path, fam_race, fam_sync, lit, rc11, sync};
 use serde_json::{json, Value};
 use std::time::{Duration, Instant};
 
@@ -11,6 +11,7 @@ pub fn work(family: &str, prop: &str, tier: u8, seed: u64, idx: usize) -> Rec {
         "lit" => fam_lit::work(prop, tier, seed, idx),
         "path" => fam_path::work(prop, tier, seed, idx),
         "sync" => fam_sync::work(prop, tier, seed, idx),
+        "race" => fam_race::work(tier, seed, idx),
         _ => {
             let mut r = Rec::new(idx);
             r.status = format!("inconclusive:unknown-family-{}", family);
@@ -92,12 +93,28 @@ fn def(prop: &str, tier: u8) -> Option<Def> {
             assumptions: vec!["equality with the unrestricted result set is only demanded for regions that provably contain no decision with two alternatives (DESIGN §5-C19)", "wall clock is used only through the two extreme durations"],
             min_nontrivial: 50,
         },
+        "C04" => Def {
+            parts: vec![("race", fam_race::total(tier)), ("sync", fam_sync::total(prop, tier))],
+            clauses: vec!["missed_race", "false_race", "unexpected_panic", "loom_internal_panic", "process_died"],
+            rule: "atomics part: a cell written by one thread and accessed by another behind an await loop, connected by every store/load ordering pair over one hop, two hops through a relay, an RMW in between, a same-thread relaxed store, fence pairs of every strength, spawn/join edges, unsync_load against atomic stores (enumerated) + random litmus programs with cell accesses; sync part: cells combined with mutex/rwlock hand-over, channel messages, join, park/unpark, Notify, condvar (pinned + random). must_report = some consistent execution under the strong reading races; must_not_report = none under the weak reading; the gap decides nothing. non-trivial = oracle verdict outside the gap and >= 2 threads with operations",
+            trusted: vec!["harness/src/rc11.rs race_verdict", "harness/src/sync.rs reference machine (vector clocks over the documented edges)", "interpreters"],
+            assumptions: vec!["an await loop is modelled as a blocking read of a non-zero value", "the sync part uses no atomics (SeqCst atomics may read stale values under loom)"],
+            min_nontrivial: 100,
+        },
         "C05" => Def {
             parts: vec![("sync", fam_sync::total(prop, tier))],
             clauses: vec!["false_deadlock", "missed_deadlock", "loom_internal_panic", "process_died", "wrong_failure"],
             rule: "every 2-thread x <= 3-op program over two mutexes, park/unpark and join + pinned shapes of the property text + seeded random programs (2-4 threads over mutexes, rwlock, condvar, Notify, channel, park/unpark, join; 15 % share their objects through loom::sync::Arc); the reference machine decides can_deadlock by explicit-state search; non-trivial = >= 2 threads with operations and >= 2 reference terminals or >= 2 loom iterations",
             trusted: vec!["harness/src/sync.rs reference machine (documented std/loom semantics, DESIGN §4.1)", "harness/src/sync.rs interpreter"],
             assumptions: vec!["no re-entrant locking, no recursive reads, one Notify waiter, only the main thread joins and receives"],
+            min_nontrivial: 100,
+        },
+        "C06" => Def {
+            parts: vec![("sync", fam_sync::total(prop, tier))],
+            clauses: vec!["missed_failure", "missed_deadlock", "missed_race", "missed_leak", "wrong_failure", "false_failure", "false_deadlock", "false_race", "false_leak", "loom_internal_panic", "process_died", "dirty_after_failure", "unexpected_branch_limit"],
+            rule: "programs over all blocking primitives, SeqCst atomics and cells with injected user assertions (unconditional, or conditioned on the preceding try_lock/try_read/try_write/try_recv result so that the failing iteration is not the first): raised in any thread, while holding mutex / rwlock guards, while other threads are blocked in lock/recv/wait/park/join, before a spawned thread ever ran, with the objects behind std or loom::sync::Arc; pinned shapes of the property text. The reference machine decides which failures are reachable; loom::model must unwind with one of them (and return normally when none is), the worker process must survive, and a probe model run afterwards in the same process must behave exactly as in a fresh process. non-trivial = >= 2 threads with operations and >= 2 reference terminals or loom iterations",
+            trusted: vec!["harness/src/sync.rs reference machine", "panic classifier (common.rs)", "interpreters"],
+            assumptions: vec!["when several failure kinds are reachable any of them is accepted (loom stops at the first failing iteration)"],
             min_nontrivial: 100,
         },
         "C07" | "C08" | "C09" => Def {
@@ -199,6 +216,10 @@ pub fn replay(path: &str) -> i32 {
         "sync" => {
             let p: sync::SProg = serde_json::from_value(v["program_json"].clone()).expect("program_json");
             fam_sync::judge(prop, &p, &mut rec, 1, true);
+        }
+        "race" => {
+            let p: lit::Prog = serde_json::from_value(v["program_json"].clone()).expect("program_json");
+            fam_race::judge(&p, &mut rec, 1, true);
         }
         "path" => {
             let p: lit::Prog = serde_json::from_value(v["program_json"].clone()).expect("program_json");
